@@ -1925,7 +1925,7 @@ class Selector(SelectorBase, _SignatureSelector):
         self._update_state()
 
     def _update_state(self):
-        if self.check_on_set is False and self.default is not None:
+        if not self.check_on_set and self.default is not None:
             self._ensure_value_is_in_objects(self.default)
 
     @property
@@ -2128,7 +2128,7 @@ class ListSelector(Selector):
                 super()._validate_value(o)
 
     def _update_state(self):
-        if self.check_on_set is False and self.default is not None:
+        if not self.check_on_set and self.default is not None:
             for o in self.default:
                 self._ensure_value_is_in_objects(o)
 
